@@ -1657,7 +1657,16 @@ class NumberOrderedForm(Operator):
                 continue
 
             # Convert the coefficient to a polynomial and extract the generators
-            poly = sympy.poly(coeff)
+            try:
+                poly = sympy.poly(coeff)
+            except sympy.polys.polyerrors.GeneratorsNeeded:
+                # sympy finds no generators in some unexpanded complex expressions, e.g.
+                # when a subexpression is zero in disguise. Expanding reveals them.
+                coeff = sympy.expand(coeff)
+                if not coeff.free_symbols:
+                    new_terms[powers] = coeff
+                    continue
+                poly = sympy.poly(coeff)
             number_gens = tuple(
                 gen for gen in poly.gens if gen in self._number_operator_placeholders
             )
